@@ -58,5 +58,88 @@ void h_gate(void) {
                 trusted=["cbmc 6.11 + DFCC, SAT back end"])
 
 
+REPORT_DEMOS = [("mcb-dimacs", "src/mcb-dimacs.cpp", ""), ("approx-mcb-dimacs", "src/approx-mcb-dimacs.cpp", "approx_")]
+
+
+def _report_unit(name, rel, prefix):
+    """K27b: everything between the gate and the weight report of a demo's main(): for every flag valuation exactly ONE algorithm is
+    called - the one the flags select - nothing returns before it, and the value printed as 'MCB weight' is what that call returned."""
+    log = []
+    text = X.src(rel)
+    blk = X.span(text, r"std::cout << \"Graph has \" << num_vertices", r"std::cout << \"MCB weight = \" << \w+ << std::endl;", "algorithm phase of " + name)
+    blk = X.strip_logging(blk, log)
+    blk = X.rewrite(blk, [
+        (r"#ifdef PARMCB_VERIF.*?#endif\n", "", (0, 1), "drop", "verification hook H2 (prints the active parallelism)"),
+        (r"#ifdef PARMCB_HAVE_TBB\n", "", (1, 6), "drop", "TBB is enabled in this configuration"),
+        (r"#else\s*std::cerr << \"TBB not supported, bailing out\.\" << std::endl;\s*#endif\n", "", (0, 4), "drop", "non-TBB configuration"),
+        (r"#endif\n", "", (0, 3), "drop", ""),
+        (r"std::cout << \"MCB weight = \" << (\w+) << std::endl;", r"vp_print_weight(\1);", (1, 3), "ghost", "the weight report"),
+        (r"vm\.count\(\"cores\"\)", "vp_has_cores", (0, 1), "container-api", "program option present"),
+        (r"vm\[\"cores\"\]\.as<int>\(\)", "vp_cores", (0, 1), "container-api", ""),
+        (r"vm\[\"k\"\]\.as<int>\(\)", "vp_k", (0, 1), "container-api", ""),
+        (r"vm\.count\(\"k\"\)", "vp_has_k", (0, 1), "container-api", ""),
+        (r"vm\[\"(\w+)\"\]\.as<bool>\(\)", r"vp_flag_\1", (4, 16), "container-api", "boolean program options"),
+        (r"boost::thread::hardware_concurrency\(\)", "vp_hw", (0, 1), "container-api", ""),
+        (r"parmcb::set_global_tbb_concurrency\((\w+)\);", r"vp_set_conc(\1);", (0, 1), "container-api", "K26"),
+        (r"std::size_t", "size_t", (0, 4), "type-binding", ""),
+        (r"boost::timer::cpu_timer timer;", "", (0, 1), "drop", "timer"),
+        (r"timer\.stop\(\);", "", (0, 1), "drop", ""),
+        (r"std::list<std::list<edge_descriptor>> cycles;", "", 1, "container-api", "output list"),
+        (r"parmcb::%s(mcb_sva_\w+)\(graph, get\(boost::edge_weight, graph\),(?: k,)? std::back_inserter\(cycles\)\)" % prefix, r"vp_algo(ALG_\1)", (6, 6), "overload-resolution",
+         "call of a library entry point -> contract: some weight, the call is recorded"),
+        (r"std::cout <<[^;]*;", ";", (2, 30), "drop", "console output"),
+        (r"std::cerr <<[^;]*;", ";", (0, 8), "drop", ""),
+        (r"return EXIT_(SUCCESS|FAILURE);", r"{ vp_returned = 1; return; }", (0, 4), "ghost", "leaving main inside the region"),
+        (r"\bint k\b", "int k", (0, 1), "type-binding", ""),
+    ], log)
+    fn = r"""
+#include <stddef.h>
+typedef _Bool bool;
+enum { ALG_mcb_sva_signed = 1, ALG_mcb_sva_signed_tbb, ALG_mcb_sva_fvs_trees, ALG_mcb_sva_fvs_trees_tbb, ALG_mcb_sva_iso_trees, ALG_mcb_sva_iso_trees_tbb };
+bool vp_flag_signed, vp_flag_fvstrees, vp_flag_isotrees, vp_flag_parallel, vp_flag_verbose, vp_flag_printcycles, vp_has_cores, vp_has_k; int vp_cores, vp_k; size_t vp_hw;
+int vp_ncalled, vp_which, vp_nprint, vp_returned; double vp_ret, vp_printed;
+size_t num_vertices_, num_edges_;
+#define num_vertices(g) num_vertices_
+#define num_edges(g) num_edges_
+double vp_algo(int which)
+__CPROVER_assigns(vp_ncalled, vp_which, vp_ret)
+__CPROVER_ensures(vp_ncalled == __CPROVER_old(vp_ncalled) + 1 && vp_which == which && vp_ret == __CPROVER_return_value && __CPROVER_return_value == __CPROVER_return_value)
+;
+void vp_print_weight(double w)
+__CPROVER_assigns(vp_nprint, vp_printed)
+__CPROVER_ensures(vp_nprint == __CPROVER_old(vp_nprint) + 1 && vp_printed == w)
+;
+void vp_set_conc(size_t n)
+__CPROVER_requires(1)
+__CPROVER_assigns()
+__CPROVER_ensures(1)
+;
+#define EXPECT (vp_flag_signed ? (vp_flag_parallel ? ALG_mcb_sva_signed_tbb : ALG_mcb_sva_signed) : vp_flag_fvstrees ? (vp_flag_parallel ? ALG_mcb_sva_fvs_trees_tbb : ALG_mcb_sva_fvs_trees) \
+                : (vp_flag_parallel ? ALG_mcb_sva_iso_trees_tbb : ALG_mcb_sva_iso_trees))
+void phase(void)
+__CPROVER_requires(vp_ncalled == 0 && vp_nprint == 0 && vp_returned == 0)
+__CPROVER_assigns(vp_ncalled, vp_which, vp_ret, vp_nprint, vp_printed, vp_returned)
+/* for EVERY graph that passed the gate and every flag valuation: one call, of the selected algorithm; one report, of its value; no earlier exit
+   (the approximate demo refuses k <= 1 with an early exit before any call) */
+__CPROVER_ensures(%(KOK)s ==> (!vp_returned && vp_ncalled == 1 && vp_which == EXPECT && vp_nprint == 1 && vp_printed == vp_ret))
+__CPROVER_ensures(!(%(KOK)s) ==> (vp_returned && vp_ncalled == 0 && vp_nprint == 0))
+{
+  int graph = 0; (void) graph;
+  %(BLK)s
+}
+void h_phase(void) {
+  phase();
+  __CPROVER_assert(0, "VP_REACH end of harness");
+}
+""" % dict(BLK=blk, KOK=("((vp_has_k ? (size_t) vp_k : (size_t) 2) > 1)" if prefix else "1"))
+    return dict(unit="K27b_report_" + name, lang="c", source=rel + " (main: from the gate to the weight report)", text=fn, entry="h_phase", enforce="phase",
+                replace=["vp_algo", "vp_print_weight", "vp_set_conc"], mode="proof", timeout=600, rewrites=log,
+                bound="loop-free: every flag valuation, every graph size, every return value of the library",
+                dropped=["console output other than the weight report; timer; hook H2; the non-TBB configuration"],
+                functions={"%s: algorithm selection and weight report" % name: "proved"},
+                assumptions=["the library entry points are represented by a contract that returns an arbitrary (non-NaN) weight: what they compute is C01/C02/C05/C06"],
+                trusted=["cbmc 6.11 + DFCC, SAT back end"])
+
+
 def units(tier):
-    return [X.guarded("K27_gate_" + n, _unit, n, r, m) for n, r, m in DEMOS]
+    return [X.guarded("K27_gate_" + n, _unit, n, r, m) for n, r, m in DEMOS] + [X.guarded("K27b_report_" + n, _report_unit, n, r, p_) for n, r, p_ in REPORT_DEMOS]
